@@ -6,6 +6,12 @@ CHECKS = {
  'C09': dict(level='exploration', tech='runtime monitor: real table functions executed (pure-Python and compiled) on a grid that determines every Fourier coefficient; oracle = independent Kaula F_lmp',
              text='Exhaustive over the finite tables (every l=2..7, m, p, both execution modes, off-tables, lookup helpers, coefficient table); each entry is compared as a trigonometric polynomial (all Fourier coefficients), so agreement is for all obliquities, not just the sampled ones.',
              note='Trusts the harness implementation of Kaula eq. 3.62 (cross-validated against 481 of 482 shipped entries) and that entries are trig polynomials of degree <= 64 in I/2.', ref='4/C09'),
+ 'C08': dict(level='exploration', tech='runtime monitor with shadow values: real table functions executed on exact Fraction power series; oracle = independent exact Hansen-coefficient series',
+             text='Exhaustive over the finite tables: every shipped (l,N) table and every multi-degree lookup helper is executed on the exact series shadow value and every coefficient of every mode (and every omitted mode with |q|<=13) is compared with exact G_lpq^2; compiled numba objects are tied to the interpreted ones on float grids.',
+             note='Trusts the harness Hansen oracle (Bessel/beta double sum over Fractions) and Python Fraction arithmetic; tolerance 1e-13 relative per coefficient because literals carry 15 digits.', ref='4/C08'),
+ 'C12': dict(level='exploration', tech='runtime monitor: public Love-number helpers, functional API and layered solver called on random bodies; oracle = independently evaluated closed form and published compliances',
+             text='Randomised exploration over l=2..7 and the full parameter ranges; every helper is compared with the closed form to a few ulp, the functional API to 1e-12 and the layered solver within its integration budget.',
+             note='Solver cross-check uses K=1e7*max(|mu|,rho g R) as the incompressible limit; closed form and compliances are re-implemented in harness/physics.py.', ref='4/C12'),
 }
 NA = []
 def main():
